@@ -75,7 +75,12 @@ class Logger:
 
     def log_node(self, node: Any) -> str:
         """Log fcp node."""
-        lines = self.sources[Path(node.meta.filename).name].split("\n")
+        # sources are registered by path and by base name: prefer the path, so
+        # that modules with the same base name do not shadow each other
+        filename = str(node.meta.filename)
+        if filename not in self.sources:
+            filename = Path(filename).name
+        lines = self.sources[filename].split("\n")
         return self.log_location(
             lines[node.meta.line - 1],
             node.meta.line,
